@@ -177,9 +177,15 @@ func TestC15API(t *testing.T) {
 			switch rapid.IntRange(0, 2).Draw(t, "uuidform") {
 			case 0:
 				sp.field = fmt.Sprintf("name%d", i)
-				if rapid.IntRange(0, 2).Draw(t, "hexname") == 0 {
+				switch rapid.IntRange(0, 4).Draw(t, "hexname") {
+				case 0:
 					// a legal <id> that looks like the hex digits of a uuid without dashes
 					sp.field = fmt.Sprintf("c4ca4238a0b923820dcc509a6f7584%02x", i)
+				case 1:
+					// one exactly as long as a uuid
+					sp.field = fmt.Sprintf("row_c4ca4238a0b923820dcc509a6f7584%02x", i)
+				case 2:
+					sp.field = fmt.Sprintf("Row_Name%d", i)
 				}
 			case 1:
 				sp.field = kit.MkUUID(3000 + i)
